@@ -114,6 +114,13 @@ def exhaustive(tier):
     for v in ("//host/path", "//cdn.example.com/lib.js", "//h", "http://h.example/p", "https://h.example:8080/p?q=1", "ftp://h", "example.com", "/path", "://x", "1http://x",
               "//", "///x", "", "h.example/p", "?q=1", "#frag", "http:/", "HTTP://H.EXAMPLE/"):
         yield {"spec": {"kind": "url", "req": False, "opts": {}, "validator": None}, "value": v}
+    # NaN and the infinities against every combination of float bounds (NaN is outside ANY declared bound), as floats and as text
+    for opts in ({}, {"min": 0.0}, {"max": 10.0}, {"min": 0.0, "max": 10.0}, {"min": float("-inf")}, {"max": float("inf")}, {"min": 0}, {"max": 10}):
+        for v in (float("nan"), "nan", "NaN", " nan ", float("inf"), float("-inf"), "inf", "-Infinity", "1e400", -0.0):
+            yield {"spec": {"kind": "float", "req": False, "opts": opts, "validator": None}, "value": v}
+    for opts in ({"min": 0}, {"max": 10}, {}):
+        for v in (float("nan"), "nan", float("inf"), "inf"):
+            yield {"spec": {"kind": "int", "req": False, "opts": opts, "validator": None}, "value": v}
     # values of a proper subclass of int / float / str (enum members, unit-carrying floats, tagged strings) are numbers /
     # strings like any other: inside, on and outside the bounds
     for kind, opts in (("int", {"min": 0, "max": 10}), ("int", {}), ("float", {"min": 0.5, "max": 10}), ("float", {}), ("port", {}), ("port", {"max": 80})):
